@@ -713,7 +713,11 @@ theorem cmpV_spec {s s' : St} {op : Cmp} {a b r : Val} (hinv : Inv s) (hP : Prim
     s.le s' ∧ Frame s s' ∧ Inv s' ∧ GoodV s' r := by
   unfold cmpV at h
   split at h
-  · gv; exact cmpLV_spec hinv hP ha hb h
+  · split at h
+    · split at h
+      · call2_arm (ensurefxp_spec hinv (GoodV_lc.mpr ha)), (cmpLL_spec inv1 (hP.mono le1) (hb.mono le1) g1)
+      · exact cmpLV_spec hinv hP (GoodV_lc.mp ha) hb h
+    · gv; exact cmpLV_spec hinv hP ha hb h
   · call2_arm (ensurebool_spec hinv hb), (cmpLL_spec inv1 (hP.mono le1) (ha.mono le1) g1)
   · call2_arm (ensurefxp_spec hinv hb), (cmpLL_spec inv1 (hP.mono le1) (ha.mono le1) g1)
   all_goals
@@ -758,6 +762,16 @@ theorem zipWithM'_spec (f : Val → Val → M Val)
       rcases List.mem_cons.mp hr with rfl | hr
       · exact g1.mono le2
       · exact g2 r hr
+
+/-- the retagging step of `if_then_else`: `LinCombBool(ret, False)` for two boolean branches -/
+theorem iteTag_spec {s s' : St} {t f ret r : Val} (hinv : Inv s) (hret : GoodV s ret)
+    (h : iteTag t f ret s = .ok (r, s')) : s.le s' ∧ Frame s s' ∧ Inv s' ∧ GoodV s' r := by
+  unfold iteTag at h
+  split at h
+  · call_arm (mkBool_spec' hinv hret)
+  · exact (raise_ok.mp h).elim
+  · obtain ⟨rfl, rfl⟩ := pure_ok' h
+    exact ret_spec hinv hret
 
 theorem iteAux_spec {cond : LinComb} : ∀ (fuel : Nat) {t f r : Val} {s s' : St}, Inv s → Good s cond →
     GoodV s t → GoodV s f → iteAux cond fuel t f s = .ok (r, s') →
@@ -817,6 +831,7 @@ theorem iteAux_spec {cond : LinComb} : ∀ (fuel : Nat) {t f r : Val} {s s' : St
       · obtain ⟨f', s1, h1, h⟩ := bind_ok.mp h
         obtain ⟨d, s2, h2, h⟩ := bind_ok.mp h
         obtain ⟨prod, s3, h3, h⟩ := bind_ok.mp h
+        obtain ⟨ret, s4, h4, h⟩ := bind_ok.mp h
         have hf' : s.le s1 ∧ Frame s s1 ∧ Inv s1 ∧ GoodV s1 f' := by
           split at h1
           · obtain ⟨y, s0, h0, h1⟩ := bind_ok.mp h1
@@ -828,8 +843,9 @@ theorem iteAux_spec {cond : LinComb} : ∀ (fuel : Nat) {t f r : Val} {s s' : St
         obtain ⟨le1, f1, inv1, g1⟩ := hf'
         obtain ⟨le2, f2, inv2, g2⟩ := subV_spec inv1 (ht.mono le1) g1 h2
         obtain ⟨le3, f3, inv3, g3⟩ := mulLV_spec inv2 (hc.mono (le1.trans le2)) g2 h3
-        obtain ⟨le4, f4, inv4, g4⟩ := addV_spec inv3 (g1.mono (le2.trans le3)) g3 h
-        exact ⟨((le1.trans le2).trans le3).trans le4, ((f1.trans f2).trans f3).trans f4, inv4, g4⟩
+        obtain ⟨le4, f4, inv4, g4⟩ := addV_spec inv3 (g1.mono (le2.trans le3)) g3 h4
+        obtain ⟨le5, f5, inv5, g5⟩ := iteTag_spec inv4 g4 h
+        exact ⟨(((le1.trans le2).trans le3).trans le4).trans le5, (((f1.trans f2).trans f3).trans f4).trans f5, inv5, g5⟩
 
 theorem ifThenElse_spec {s s' : St} {cond t f r : Val} {same : Bool} (hinv : Inv s) (hc : GoodV s cond)
     (ht : GoodV s t) (hf : GoodV s f) (h : ifThenElse cond same t f s = .ok (r, s')) :
